@@ -944,3 +944,188 @@ Proof.
       unfold wt; ktags; cbn. repeat split; intros Y; discriminate.
     + inversion HI. unfold wt; ktags; cbn. repeat split; intros Y; try discriminate. eauto.
 Qed.
+
+(* ---------- stages 1 and 2 under the batched relation ---------- *)
+
+Lemma strip_st : forall nd st, upd_st_step (strip nd) st = strip (upd_st_step nd st).
+Proof. intros. unfold upd_st_step. destruct (st_emptyb st); reflexivity. Qed.
+
+Lemma strip_ss : forall nd ss, upd_ss_step (strip nd) ss = strip (upd_ss_step nd ss).
+Proof.
+  intros. unfold upd_ss_step. destruct (ss_emptyb ss); [reflexivity|].
+  unfold strip, n_last, n_last_term, n_ssidx, nlen. cbn [n_marker n_ents n_mterm n_st n_ss length last_term].
+  f_equal. lia.
+Qed.
+
+Lemma upd_ss_wf_strip : forall nd ss, upd_ss_wf (strip nd) ss = upd_ss_wf nd ss.
+Proof.
+  intros. unfold upd_ss_wf. rewrite n_last_strip. reflexivity.
+Qed.
+
+Lemma BC_st : forall g cb nd n st, BC g cb nd n -> BC g cb (upd_st_step nd st) n.
+Proof.
+  intros g cb nd n st H. unfold upd_st_step. destruct (st_emptyb st); [exact H|].
+  destruct H as [B1 B2 B3 B4 B5]. constructor; auto.
+Qed.
+
+Lemma BC_ss : forall g cb nd n ss, BC g cb nd n -> contig (n_marker nd + 1) (n_ents nd) ->
+  upd_ss_wf nd ss = true -> BC g cb (upd_ss_step nd ss) n.
+Proof.
+  intros g cb nd n ss H HC Hwf. unfold upd_ss_step. unfold upd_ss_wf in Hwf.
+  destruct (ss_emptyb ss) eqn:E; [exact H|]. cbn [orb] in Hwf.
+  rewrite !andb_true_iff in Hwf. destruct Hwf as ((W1 & W2) & W3). apply N.leb_le in W2.
+  assert (Hlast : n_last nd <= ss_index ss).
+  { apply orb_true_iff in W3. destruct W3 as [W3|W3]; apply andb_true_iff in W3; destruct W3 as [A B].
+    - now apply N.leb_le in B.
+    - apply N.eqb_eq in B. lia. }
+  set (nd' := mkNode (ss_index ss) (ss_term ss) [] (n_st nd) (if n_ssidx nd <? ss_index ss then Some ss else n_ss nd)).
+  assert (HL' : n_last nd' = ss_index ss) by (unfold n_last, nlen, nd'; cbn [n_marker n_ents length]; lia).
+  assert (HT' : hterm nd <= hterm nd') by (unfold hterm, n_last_term, nd'; cbn [n_mterm n_ents last_term]; fold (n_last_term nd); lia).
+  destruct H as [B1 B2 B3 B4 B5]. constructor.
+  - exact I.
+  - exact B2.
+  - intros b raw X. destruct (B3 b raw X) as (R1 & R2 & R3 & R4). split; [exact R1|]. split; [exact R2|]. split.
+    + intros x HI. destruct (R3 x HI) as (A1 & A2 & A3). split; [exact A1|]. split; [lia | exact A3].
+    + cbn [n_ents nd']. unfold bfilter. cbn [filter]. apply filter_nil. intros x HI.
+      unfold in_log. rewrite HL'. cbn [n_marker nd'].
+      destruct (ss_index ss <? e_index x) eqn:X1; [|reflexivity]. apply N.ltb_lt in X1.
+      cbn [andb]. apply N.leb_gt. lia.
+  - intros e [].
+  - intros lb Hlb. destruct (B5 lb Hlb) as (A & B & C). split; [exact A|]. split; [intros e []|].
+    cbn [n_marker nd']. intros X. apply C. unfold n_last in Hlast.
+    pose proof (batch_id_mono (n_marker nd + 1) (ss_index ss + 1) ltac:(lia)). lia.
+Qed.
+
+Lemma state_part_batch : forall c n st n', c_batch (fst (state_part c n st) n') = c_batch (c n').
+Proof.
+  intros. unfold state_part. destruct (st_emptyb st); [reflexivity|]. unfold cs_set_state.
+  destruct (c_state (c n)) as [v|]; [destruct (st_eqb v st)|]; cbn [fst]; try reflexivity;
+    unfold cupd; destruct (nid_eqb n' n) eqn:E; try reflexivity;
+    apply nid_eqb_eq in E; subst; reflexivity.
+Qed.
+
+Lemma snap_part_batch : forall m c n ss es c' w n', snap_part m c n ss es = Some (c', w) ->
+  c_batch (c' n') = c_batch (c n').
+Proof.
+  intros m c n ss es c' w n' H. unfold snap_part in H. destruct (ss_emptyb ss); [now inversion H|].
+  unfold cs_try_save_snapshot in H.
+  assert (Hm : forall c0 v, c_batch (cs_set_max_index c0 n v n') = c_batch (c0 n')).
+  { intros. unfold cs_set_max_index, cupd. destruct (nid_eqb n' n) eqn:E; [|reflexivity].
+    apply nid_eqb_eq in E. now subst. }
+  destruct (c_snap (c n)) as [v|].
+  - destruct (v <? ss_index ss).
+    + destruct (negb _ && _); [discriminate|]. destruct (save_snapshot_wb m n ss); [|discriminate].
+      inversion H. apply Hm.
+    + now inversion H.
+  - destruct (negb _ && _); [discriminate|]. destruct (save_snapshot_wb m n ss); [|discriminate].
+    inversion H. rewrite Hm. unfold cupd. destruct (nid_eqb n' n) eqn:E; [|reflexivity].
+    apply nid_eqb_eq in E. now subst.
+Qed.
+
+(* ---------- one update on its node, batched format ---------- *)
+
+Definition no_batch_keys (w : wb) : Prop := forall o, In o w -> k_tag (wkey o) <> c09_tag_entry_batch.
+
+Lemma gapply_no_batch : forall w g n b, no_batch_keys w -> gapply w g (KBatch n b) = g (KBatch n b).
+Proof.
+  intros w g n b H. unfold gapply. rewrite wb_last_none; [reflexivity|].
+  intros o HI X. apply (H o HI). rewrite X. reflexivity.
+Qed.
+
+Lemma snap_part_keys : forall m c n ss es c' w, snap_part m c n ss es = Some (c', w) -> no_batch_keys w.
+Proof.
+  intros m c n ss es c' w H. unfold snap_part in H. destruct (ss_emptyb ss) eqn:E.
+  { inversion H. intros o []. }
+  assert (HW : forall w2, save_snapshot_wb m n ss = Some w2 ->
+            no_batch_keys (w2 ++ [WPut (KMaxIndex n) (VMax (ss_index ss))])).
+  { intros w2 X. unfold save_snapshot_wb in X. rewrite E in X. destruct (list_snapshots m n); [|discriminate].
+    inversion X. intros o HI. apply in_app_or in HI. destruct HI as [HI|[<-|[]]]; [|cbn; ktags; discriminate].
+    apply in_app_or in HI. destruct HI as [HI|[<-|[]]]; [|cbn; ktags; discriminate].
+    apply in_map_iff in HI. destruct HI as (x & <- & _). cbn. ktags. discriminate. }
+  destruct (cs_try_save_snapshot c n (ss_index ss)) as [c2 ok]. destruct ok.
+  - destruct (negb _ && _); [discriminate|]. destruct (save_snapshot_wb m n ss) eqn:S; [|discriminate].
+    inversion H. subst. now apply HW.
+  - inversion H. intros o [].
+Qed.
+
+Lemma contig_ss : forall nd ss, contig (n_marker nd + 1) (n_ents nd) ->
+  contig (n_marker (upd_ss_step nd ss) + 1) (n_ents (upd_ss_step nd ss)).
+Proof. intros nd ss H. unfold upd_ss_step. destruct (ss_emptyb ss); [exact H | exact I]. Qed.
+Lemma contig_st : forall nd st, contig (n_marker nd + 1) (n_ents nd) ->
+  contig (n_marker (upd_st_step nd st) + 1) (n_ents (upd_st_step nd st)).
+Proof. intros nd st H. unfold upd_st_step. destruct (st_emptyb st); exact H. Qed.
+
+Record RB1 (g : gfun) (cn : cnode) (nd : rnode) (n : nid) : Prop := mkRB1 {
+  rb_core : RnG g cn (strip nd) n;
+  rb_batches : BC g (c_batch cn) nd n;
+  rb_contig : contig (n_marker nd + 1) (n_ents nd)
+}.
+
+Lemma RB1_ext : forall g g' cn nd n, RB1 g cn nd n -> (forall k, key_node k = n -> g' k = g k) -> RB1 g' cn nd n.
+Proof.
+  intros g g' cn nd n [A B C] HE. constructor; auto.
+  - eapply RnG_ext; eauto.
+  - eapply BC_ext; eauto. intros b. apply HE. unfold key_node, KBatch; cbn. apply nid_eta.
+Qed.
+
+Lemma save_node_b : forall m c nd n u, sorted m -> WT m ->
+  RB1 (kv_get m) (c n) nd n -> u_node u = n -> update_wf nd u = true ->
+  exists c1 wh, save_head m c u = Some (c1, wh) /\
+    (forall n', n' <> n -> c1 n' = c n') /\ wb_in_node wh n /\ wb_wt wh /\
+    forall ct, ct n = c1 n ->
+      exists ct' wt_, b_save_tail m ct u = Some (ct', wt_) /\
+      (forall n', n' <> n -> ct' n' = ct n') /\ wb_in_node wt_ n /\ wb_wt wt_ /\
+      RB1 (gapply (wh ++ wt_) (kv_get m)) (ct' n) (update_step nd u) n.
+Proof.
+  intros m c nd n u HS HW [H HB HC] Hn Hwf. unfold update_wf in Hwf. apply andb_true_iff in Hwf.
+  destruct Hwf as [Wss Wes].
+  rewrite save_head_parts. rewrite Hn.
+  pose proof (stage_state (kv_get m) c (strip nd) n (u_st u) H) as S1.
+  pose proof (state_part_batch c n (u_st u) n) as CB1.
+  destruct (state_part c n (u_st u)) as [ca w1]. cbn [fst] in CB1. destruct S1 as (R1 & O1 & K1).
+  rewrite strip_st in R1.
+  assert (K1n : wb_in_node w1 n).
+  { intros o HI. rewrite (K1 o HI). unfold key_node; cbn; apply nid_eta. }
+  assert (K1w : wb_wt w1).
+  { intros k v HI. apply K1 in HI. inversion HI; subst. unfold wt; ktags; cbn.
+    repeat split; intros X; try discriminate. eauto. }
+  assert (K1b : no_batch_keys w1).
+  { intros o HI. rewrite (K1 o HI). cbn. ktags. discriminate. }
+  destruct (stage_snap m (gapply w1 (kv_get m)) ca (strip (upd_st_step nd (u_st u))) n (u_ss u) (u_ents u) HS HW R1)
+    as (c1 & w2 & E2 & R2 & O2 & K2n & K2w).
+  { intros i. unfold gapply. rewrite wb_last_none; auto.
+    intros o HI. rewrite (K1 o HI). cbn [wkey]. intros X; ktags; inversion X. }
+  { now rewrite upd_ss_wf_strip, upd_ss_wf_st. }
+  { intros E Hne. unfold upd_ents_wf in Wes. destruct (u_ents u) as [|e0 es0] eqn:EU; [contradiction|].
+    rewrite !andb_true_iff in Wes. destruct Wes as (((A & B) & C) & D). apply N.ltb_lt in A.
+    pose proof (ents_okb_contig _ _ _ D) as HCc.
+    rewrite (last_index_contig _ _ HCc) by discriminate. rewrite nlen_cons.
+    unfold upd_ss_step in A. rewrite E in A. cbn [n_marker] in A. lia. }
+  rewrite strip_ss in R2.
+  pose proof (snap_part_keys _ _ _ _ _ _ _ E2) as K2b.
+  pose proof (snap_part_batch _ _ _ _ _ _ _ n E2) as CB2.
+  rewrite E2. exists c1, (w1 ++ w2). split; [reflexivity|]. split; [|split; [|split]].
+  - intros n' Hn'. rewrite O2 by auto. auto.
+  - now apply wb_in_node_app.
+  - now apply wb_wt_app.
+  - intros ct Hct.
+    set (nd2 := upd_st_step (upd_ss_step nd (u_ss u)) (u_st u)).
+    assert (Hnb : no_batch_keys (w1 ++ w2)).
+    { intros o HI. apply in_app_or in HI. destruct HI; auto. }
+    assert (R2' : RnG (gapply (w1 ++ w2) (kv_get m)) (ct n) (strip nd2) n).
+    { rewrite Hct. unfold nd2. rewrite <- upd_steps_commute. eapply RnG_ext; [exact R2|]. intros k _. apply gapply_app. }
+    assert (B2' : BC (gapply (w1 ++ w2) (kv_get m)) (c_batch (ct n)) nd2 n).
+    { rewrite Hct, CB2, CB1. unfold nd2. rewrite <- upd_steps_commute.
+      eapply BC_ext; [|intros b; apply gapply_no_batch; exact Hnb].
+      apply BC_ss; [now apply BC_st | now apply contig_st | now rewrite upd_ss_wf_st]. }
+    assert (C2' : contig (n_marker nd2 + 1) (n_ents nd2)) by (unfold nd2; apply contig_st, contig_ss; exact HC).
+    destruct (stage_ents_b m (gapply (w1 ++ w2) (kv_get m)) ct nd2 n u HS) as (ct' & w3 & E3 & R3 & B3 & C3 & O3 & K3n & K3w); auto.
+    + intros b. now apply gapply_no_batch.
+    + unfold nd2. now rewrite upd_ents_wf_st.
+    + exists ct', w3. split; [exact E3|]. split; [exact O3|]. split; [exact K3n|]. split; [exact K3w|].
+      unfold update_step. fold nd2. constructor.
+      * eapply RnG_ext; [exact R3|]. intros k _. apply gapply_app.
+      * eapply BC_ext; [exact B3|]. intros b. apply gapply_app.
+      * assert (n_marker (upd_ents_step nd2 (u_ents u)) = n_marker nd2) as ->; [|exact C3].
+        unfold upd_ents_step. now destruct (u_ents u).
+Qed.
